@@ -57,7 +57,7 @@ CLAUSES = [
     "y-without-target, y-rows, dataset-y <- drop_target calls, call kind 'unlabeled', target_missing frames",
     "supplying previously computed statistics = recomputing them -> supplied-raises:*, supplied-frame, supplied-stats, "
     "supplied-stats-source-changed <- supplied cases, col_stats passed by keyword / positionally, with device forms; "
-    "Coq materialize_ok",
+    "Coq materialize_ok; BOUNDARIES supplied-target:* pin both sides of the `len(index) == 2` guard",
     "(malformed, outside the quantifier) a frame lacking a feature column: NO demand (raise or result both accepted, "
     "Coq not compared when it returns normally) <- drop_feature; afterwards the converter must still work -> the "
     "keys above on the following calls",
@@ -330,9 +330,56 @@ def sibling_frame(rng, desc):
             "col_order": list(desc["col_order"])}
 
 
+# Deterministic boundary cases, run on every quick run whatever the seed.
+BOUNDARIES = [
+    "supplied statistics x categorical TARGET on both sides of materialize's `len(index) == 2` guard: multi-class "
+    "targets with 3, 4 and 5 classes whose frequency order differs from the lexicographic / numeric order (string "
+    "labels, integer labels, with and without ties in the counts) -- the code lists them in FREQUENCY order and "
+    "materialize(col_stats=...) must keep that order (keys supplied-frame, supplied-stats, y-rows) -- and the "
+    "two-class twin, where the first materialize re-sorts the classes lexicographically; each with col_stats passed by "
+    "keyword and positionally; followed by a whole-frame, a single-row and a repeated-row conversion",
+]
+
+
+def boundary_cases():
+    out = []
+
+    def col(name, st, cells, **kw):
+        d = {"name": name, "stype": st, "dtype": "object", "sep": None, "fmt": None, "width": None, "cells": cells,
+             "nan_kind": "none"}
+        d.update(kw)
+        return d
+    targets = {
+        "str3": ["c", "c", "c", "a", "a", "b"],                                   # counts c > a > b
+        "str3_tie": ["c", "c", "b", "b", "a"],                                     # c = b > a
+        "str4": ["d", "d", "d", "d", "b", "b", "b", "a", "a", "c"],                # d > b > a > c
+        "str5_tie": ["e", "e", "e", "c", "c", "a", "a", "d", "b"],                 # e > c = a > d = b
+        "int3": [10, 10, 10, 2, 2, 7],                                             # 10 > 2 > 7
+        "int4_tie": [5, 5, 1, 1, 9, 9, 3],                                         # 5 = 1 = 9 > 3
+        "int5": [40, 40, 40, 40, 40, 8, 8, 8, 8, 30, 30, 30, 1, 1, 22],            # 40 > 8 > 30 > 1 > 22
+        "bin_str": ["b", "b", "b", "a"],                                           # two classes: re-sorted to a, b
+        "bin_int": [9, 9, 3, 9, 3],
+    }
+    for name, labels in targets.items():
+        for form in ("keyword", "positional"):
+            n = len(labels)
+            desc = {"n": n, "index": "range" if form == "keyword" else "offset",
+                    "cols": [col("x", "numerical", [float(i) for i in range(n)], dtype="float"),
+                             col("k", "categorical", [labels[(i * 3) % n] for i in range(n)]),
+                             col("lab", "categorical", list(labels))],
+                    "target": "lab", "col_order": ["x", "lab", "k"]}
+            base = {"inject": [], "drop_target": False, "how": "iloc", "columns": "same", "device": "default",
+                    "entry": "call", "sel_alias": "tensor_frame[idx]"}
+            calls = [dict(base, kind="all", rows=list(range(n))), dict(base, kind="single", rows=[n - 1]),
+                     dict(base, kind="repeat", rows=[0, 0, n - 1])]
+            out.append({"frame": desc, "calls": calls, "supplied": True, "boundary": "supplied-target:" + name,
+                        "materialize_args": {"device": "default", "col_stats": form}})
+    return out
+
+
 def generate(rng, tier):
     n = 200 if tier == "quick" else 6000
-    return [gen_case(rng, tier) for _ in range(n)]
+    return boundary_cases() + [gen_case(rng, tier) for _ in range(n)]
 
 
 # ------------------------------------------------------------------ implementation
@@ -804,6 +851,20 @@ def stats(cases, obss):
         if sts & {"text_embedded", "image_embedded"}:
             d["frames_with_embedding_merge"] += 1
         d["supplied"] += int(c["supplied"])
+        if c.get("boundary"):
+            d.setdefault("boundary", {})
+            k = c["boundary"] + ":" + (c.get("materialize_args") or {}).get("col_stats", "")
+            d["boundary"][k] = d["boundary"].get(k, 0) + 1
+        tc = next((x for x in desc["cols"] if x["name"] == desc["target"]), None)
+        if c["supplied"] and tc is not None and tc["stype"] == "categorical":
+            vals = [v for v in tc["cells"] if v is not None]
+            classes = sorted(set(vals), key=lambda v: (isinstance(v, str), v))
+            by_count = sorted(classes, key=lambda v: -vals.count(v))
+            strict = [vals.count(v) for v in by_count]
+            differs = any(strict[i] > strict[i + 1] and by_count[i] > by_count[i + 1] for i in range(len(strict) - 1))
+            kk = ("binary" if len(classes) == 2 else "multiclass") + (":frequency-order-differs" if differs else "")
+            d.setdefault("supplied_categorical_target", {})
+            d["supplied_categorical_target"][kk] = d["supplied_categorical_target"].get(kk, 0) + 1
         wide = lambda v: isinstance(v, int) and abs(v) >= 2 ** 63      # noqa: E731
         fc = sum(1 for x in desc["cols"] if x.get("cast") == "float64" and x["stype"] == "categorical")
         wc = sum(1 for x in desc["cols"] if x["stype"] == "categorical" and any(wide(v) for v in x["cells"]))
@@ -885,6 +946,13 @@ def sanity(cases, obss):
     for k in ("cases_with_other_datasets", "other_datasets_mid_session", "targets_with_missing_cells"):
         if d.get(k, 0) == 0:
             probs.append(f"{k} = 0")
+    for nm in ("str3", "str3_tie", "str4", "str5_tie", "int3", "int4_tie", "int5", "bin_str", "bin_int"):
+        for form in ("keyword", "positional"):
+            if (d.get("boundary") or {}).get(f"supplied-target:{nm}:{form}", 0) == 0:
+                probs.append(f"boundary case supplied-target:{nm}:{form} missing")
+    for k in ("multiclass:frequency-order-differs", "binary:frequency-order-differs"):
+        if (d.get("supplied_categorical_target") or {}).get(k, 0) < 2:
+            probs.append(f"fewer than 2 supplied-statistics cases with a {k} categorical target")
     need = {"call_how": ["iloc", "take", "concat", "reset_index", "mask"],
             "call_columns": ["same", "permuted", "extra", "permuted+extra"],
             "call_device": ["default", "kw_none", "pos_str", "kw_device"], "call_entry": ["call", "dunder"],
